@@ -378,3 +378,92 @@ Definition at_or_above (h : N) (pre : list effect) : list effect :=
                    | Bcast (MPrevote v) => h <=? v_h v
                    | Bcast (MPrecommit v) => h <=? v_h v
                    | _ => true end) pre.
+
+(* ---------- the executable hypothesis of the replay theorems: a "plain" run ---------- *)
+(* cells of the vote counter: the round data of (height >= current, round), wherever it is stored *)
+Definition vc_fut (vc : vcounter) (h : N) : rmap :=
+  match aget N.eqb (vc_future vc) h with Some m => m | None => [] end.
+Definition vc_cell (vc : vcounter) (h : N) (r : Z) : rdata :=
+  rm_get (if h =? vc_h vc then vc_rounds vc else vc_fut vc h) r.
+
+Fixpoint list_eqb {A : Type} (eqb : A -> A -> bool) (l1 l2 : list A) : bool :=
+  match l1, l2 with
+  | [], [] => true
+  | x :: r1, y :: r2 => eqb x y && list_eqb eqb r1 r2
+  | _, _ => false
+  end.
+Definition ballot_eqb (a b : ballot) : bool := Bool.eqb (fst a) (fst b) && Bool.eqb (snd a) (snd b).
+Definition bset_eqb (a b : bset) : bool :=
+  list_eqb (fun x y => (fst x =? fst y) && ballot_eqb (snd x) (snd y)) (b_bal a) (b_bal b) &&
+  (b_pv a =? b_pv b) && (b_pc a =? b_pc b) && (b_tot a =? b_tot b).
+Definition oprop_eqb (a b : option proposal) : bool :=
+  match a, b with Some p, Some q => proposal_eqb p q | None, None => true | _, _ => false end.
+Definition rdata_eqb (a b : rdata) : bool :=
+  oprop_eqb (r_prop a) (r_prop b) && (r_unc a =? r_unc b) &&
+  list_eqb (fun x y => (fst x =? fst y) && bset_eqb (snd x) (snd y)) (r_ids a) (r_ids b) &&
+  bset_eqb (r_nil a) (r_nil b) && bset_eqb (r_all a) (r_all b).
+
+Definition msg_pos (i : input) : option (N * Z) :=
+  match i with
+  | IProposal p => Some (p_h p, p_r p)
+  | IPrevote v => Some (v_h v, v_r v)
+  | IPrecommit v => Some (v_h v, v_r v)
+  | _ => None
+  end.
+Definition timeout_matches (s : state) (k : phase) (h : N) (r : Z) : bool :=
+  (s_h s =? h) && (s_r s =? r)%Z &&
+  match k with SPropose => step_eqb (s_step s) SPropose | SPrevote => step_eqb (s_step s) SPrevote | SPrecommit => true end.
+Definition is_rnone (ru : rule) : bool := match ru with RNone => true | _ => false end.
+Definition has_commit (acts : list action) : bool :=
+  existsb (fun a => match a with ACommit _ => true | _ => false end) acts.
+
+(* one call of a plain run:
+   - ProcessStart(0) does not itself commit (the validator alone is not a quorum, nothing was buffered);
+   - a message is for the current height or below (nothing for a future height is delivered), arrives while
+     the height is started, and if it is rejected (no action returned) it leaves its counter cell as it was;
+   - a timeout arrives while the height is started, and if it does not match (stale) no rule is pending
+     (process.go runs processLoop even for a stale timeout, and nothing of that call would be logged). *)
+Definition good_body (E : env) (s : state) (n : N) (i : input) (s' : state) (acts : list action) : bool :=
+  ok_input s i &&
+  match i with
+  | IStart r => (r =? 0)%Z && negb (has_commit acts)
+  | ITimeout k h r =>
+      s_started s &&
+      (timeout_matches s k h r ||
+       is_rnone (select (cfg_at E (s_h s) (in_round i) n) (set_nval s 0) None))
+  | _ => match msg_pos i with
+         | Some (h, r) =>
+             s_started s && (h <=? s_h s) &&
+             match acts with
+             | [] => rdata_eqb (vc_cell (s_vc s) h r) (vc_cell (s_vc s') h r)
+             | _ => true
+             end
+         | None => true
+         end
+  end.
+Definition good_step (E : env) (d : dstate) (i : input) : bool :=
+  let r := sm_step E (d_sm d) (d_calls d) i in
+  good_body E (d_sm d) (d_calls d) i (fst (fst r)) (snd r).
+
+Fixpoint starts_good (E : env) (fuel : nat) (d : dstate) : bool :=
+  match fuel with
+  | O => true
+  | S n => good_step E d (IStart 0) &&
+           let '(d1, _, com) := dstep E false d (IStart 0) in
+           if com then starts_good E n d1 else true
+  end.
+Fixpoint listen_good (E : env) (d : dstate) (ins : list input) : bool :=
+  match ins with
+  | [] => true
+  | i :: rest =>
+      good_step E d i &&
+      let '(d1, _, com) := dstep E false d i in
+      (if com then starts_good E SFUEL d1 else true) &&
+      listen_good E (if com then fst (starts E SFUEL d1) else d1) rest
+  end.
+(* a plain life on an empty log *)
+Definition good_run (E : env) (h0 : N) (ins : list input) : bool :=
+  (1 <=? h0) && starts_good E SFUEL (boot h0 [] 0) &&
+  listen_good E (fst (starts E SFUEL (boot h0 [] 0))) ins.
+
+Definition quorum_positive (E : env) : Prop := forall h, 0 < q_of (c_total (e_cfg E) h).
